@@ -80,7 +80,9 @@ package internal
 //@ guarded [C05] poller.spare by lck constructors NewPoller
 
 //@ pred pInv(p *poller) = p.waker != nil && len(p.events) > 0 && len(p.posts) <= 1<<40 &&
-//@   (forall j :: 0 <= j && j < len(p.posts) ==> p.posts[j] != nil)
+//@   (forall j :: 0 <= j && j < len(p.posts) ==> p.posts[j] != nil) &&
+//@   // the queue and the spare slice are two different arrays
+//@   disjoint(p.posts[0:cap(p.posts)], p.spare[0:cap(p.spare)])
 
 //@ func (*poller).Post
 //@   prop C05, C03
@@ -104,6 +106,8 @@ package internal
 //@   trusted
 //@   ensures pInv(p)
 //@   ensures forall j :: 0 <= j && j < len(posts) ==> posts[j] == old(posts[j])
+//@   // handlers reach the queue only through Post, which appends in place or moves it to fresh storage
+//@   ensures disjoint(p.posts[0:cap(p.posts)], posts[0:cap(posts)]) && (p.spare == nil || p.spare == old(p.spare))
 
 //@ func (*poller).dispatch
 //@   prop C05, C03
@@ -113,9 +117,13 @@ package internal
 //@          (forall j :: 0 <= j && j < len(p.posts) ==> p.posts[j] == old(p.posts[j]))
 //@   // handlers still to run are the entry queue's, untouched, in order
 //@   loop 2 invariant pInv(p) && -1 <= rangeindex && rangeindex < max(len(posts), 1) && len(posts) == old(len(p.posts)) &&
-//@          (forall j :: rangeindex < j && j < len(posts) ==> posts[j] == old(p.posts[j]))
+//@          (forall j :: rangeindex < j && j < len(posts) ==> posts[j] == old(p.posts[j])) &&
+//@          disjoint(p.posts[0:cap(p.posts)], posts[0:cap(posts)])
 //@   // the queue is empty as soon as it has been swapped out: handlers posted from now on run in the next cycle
 //@   assert call Unlock#1: len(p.posts) == 0 && alias(posts, old(p.posts))
+//@   // ... and it no longer shares storage with the live queue: a Post made while the batch runs
+//@   // cannot overwrite a handler that has not run yet
+//@   assert call Unlock#1: disjoint(p.posts[0:cap(p.posts)], posts[0:cap(posts)]) && p.spare == nil
 //@   // exactly once, in posting order: iteration i runs the i-th handler of the entry queue
 //@   assert call handler: handler == old(p.posts[i]) && handler != nil
 
